@@ -11,8 +11,15 @@ certificate option set).  Called from checks/c05.py as `run(ctx, quick)`.
    trust): KeyIsCeiling, CertIsCeiling, EmptyCertGrantsNothing,
    NoCertNoCertRestriction, Unrestricted, RejectedGetsNothing, Monotone,
    RestrictThenPermit, ForcedCommandWins, PermitOpenEnforced, FromEnforced,
-   CertConditionsEnforced, PlainKeyNotViaCALine.  Four deliberately wrong
-   variants of the rule must be rejected.  The same run emits the table.
+   CertConditionsEnforced, PlainKeyNotViaCALine; security keys (section
+   "sk": sk-ed25519 / sk-ecdsa as plain line, certificate from a
+   cert-authority line, callback-accepted; no-touch-required /
+   verify-required on the line x no-touch-required extension x signature
+   flags user-presence / user-verification x application id): TouchEnforced,
+   VerifyEnforced, SkSignatureBound, SkWordsOnlyRestrict.  Deliberately wrong
+   variants of the rule (EmptyCertIsNoCert, KeyCommandFirst, EitherGrants,
+   RestrictRule / VerifyRule = FALSE, EitherWaivesTouch, CallbackWaivesTouch)
+   must be rejected.  The same run emits the table.
 2. Every row is materialised against the real server (real keys, real
    certificates, real authorized_keys text, real client) and each operation is
    attempted; what the server application / the client saw is compared with
